@@ -4,15 +4,57 @@ import json, os
 ROOT = os.path.dirname(os.path.dirname(os.path.abspath(__file__)))
 CLAIMED = {
  # id: (design section, technique, level text, level note)
+ 'C01': ('5/C01', 'CrossHair symbolic execution (z3) of the live parse-and-render pipeline on tiny symbolic documents, of every block reader for cursor progress, and of one-character neighbourhoods of each construct',
+         'for ALL documents within the stated bounds (full Unicode at 1 character, 14-character alphabet above), all renderers and option vectors: no exception, every path terminates; reader progress carries termination to any number of lines',
+         'bounds in the evidence; Pygments and urllib.parse.quote stubbed by contract; composition (induction on lines) is prose'),
+ 'C04': ('5/C04', 'CrossHair symbolic execution of Quote.read / List.read hand-off (recorder on tokenize_block), dispatch order and tiny whole documents',
+         'for ALL lines within the bounds the container readers hand the nested tokenizer exactly the embedded lines and start line; end-to-end on tiny documents and skeletons',
+         'one recorded finding (setext heading inside a quote) excluded by a narrow predicate; tabs excluded by the property'),
+ 'C05': ('5/C05', 'CrossHair symbolic execution of tokenize_block with a fully symbolic line after the blank line; start-line translation with an unbounded integer',
+         'for ALL fillings of the skeleton holes and ALL following lines within the bounds, the blocks of A are unaffected by what follows the blank line; line numbers translate for ALL start lines',
+         'composition with C11 (scratch state) is prose'),
+ 'C06': ('5/C06', 'CrossHair symbolic execution of process_emphasis on an abstract delimiter stack and of find_core_tokens on symbolic strings, differential against a reference model of spec 6.2; z3 on the character classes',
+         'for ALL stacks of k runs (symbolic kinds, lengths, flags) and ALL strings over {a, space, *, _, .} up to N the matches equal the spec algorithm; flanking for ALL neighbour code points',
+         'reference model validated against 108 spec examples each run; bounds in the evidence'),
+ 'C07': ('5/C07', 'CrossHair symbolic execution of normalize_label, append_footnotes, the reference lookup and the two-phase parse with symbolic labels / placements',
+         'for ALL labels over a stated finite alphabet (case-fold and whitespace variants) and ALL placements within the bounds: first definition wins, lookups agree with the reference normaliser, definitions are complete before any inline parse',
+         'labels over a 14-character alphabet (str.casefold is C-level); the destination/title scanner grammar is only covered by skeletons'),
  'C08': ('5/C08', 'CrossHair symbolic execution of the live escaping kernels and render_* templates + z3',
          'bounded symbolic check: for ALL strings up to the stated length over full Unicode and all option vectors, the escaping kernels and every HtmlRenderer template emit well-formed output',
          'bounds per lemma in the evidence; CrossHair str/regex models (gated against str/re each run); composition by structural induction is prose'),
+ 'C09': ('5/C09', 'CrossHair symbolic execution of the Markdown renderer on tiny symbolic documents, inline strings, container prefixes (symbolic integers) and normal-form skeletons',
+         'round trip (same HTML, idempotent) for ALL documents up to the bound; byte-exact inline fragments for ALL strings over a 10-character alphabet up to the bound; prefixes for ALL marker spellings',
+         'the finding classes named in the property need longer inputs than the bound and are neither confirmed nor refuted'),
+ 'C10': ('5/C10', 'CrossHair symbolic execution of the greedy fill on words of symbolic length, of make_words, of the container budgets (unbounded integers) and of tiny whole documents with a symbolic limit',
+         'for ALL word lengths and limits the fill honours the bound and keeps the words in order; the child budget stays positive for ALL limits; meaning/idempotence on tiny documents',
+         'words are length-only duck strings; documents beyond the W4 bound outside'),
+ 'C11': ('5/C11', 'CrossHair symbolic execution of an inductive step: arbitrary (symbolic) scratch state, symbolic renderer/probe choice, symbolic fault point (hook, call count, list position)',
+         'from ANY prior scratch state and after a fault at ANY of the enumerated crash points the observational invariant (token lists default, probe documents render to their fresh-interpreter baseline) holds',
+         'Inv is observational; probe set listed in the evidence'),
+ 'C12': ('5/C12', 'CrossHair symbolic execution of traverse / Token.children / get_ast on all tree shapes (parent vectors) and of tiny whole documents; z3 regular-language query on Heading.pattern',
+         'for ALL tree shapes up to n nodes the utilities are faithful; heading level within 1..6 for lines of ANY length; list start for ALL digit strings up to the bound',
+         'json is C-level: JSON round trip only on finite alphabets'),
+ 'C13': ('5/C13', 'CrossHair symbolic execution of tokenize_block + container readers on skeleton documents with symbolic blank-line counts and an unbounded symbolic start line',
+         'for ALL start lines and ALL admitted blank-line counts every block token of every skeleton reports the line it starts on',
+         'skeleton list in vfy/lemmas/c13.py'),
  'C14': ('5/C14', 'z3 regular-language inclusion of the compiled block-start patterns in the CommonMark grammars (lines of any length) + CrossHair on coded starts and tiny paragraphs',
          'unbounded-length inclusion queries on the live compiled patterns decide that nothing is a block start unless the spec says so; coded starts and the inline phase are checked by bounded symbolic execution',
          'code points <= U+2FFFF; oracles apply on Σmd only; translator validated against re on corpus lines each run'),
+ 'C15': ('5/C15', 'CrossHair symbolic execution of Document.__init__ line normalisation (recorder on the tokenizer), the CLI with stubbed open/stdout, and tiny whole documents',
+         'for ALL texts over Σmd up to the bound the line list reaching the tokenizer is the same for every input form; CLI output equals the library output',
+         'file objects modelled by their iteration contract; real file system / encodings outside'),
  'C16': ('5/C16', 'CrossHair symbolic execution of the live span_tokenizer resolution code on abstract candidates with unbounded integer coordinates + z3',
          'for ALL integer coordinates/precedences of 2 and 3 candidates the real eval_tokens/relation/make_tokens code tiles the source and follows the documented rule; string-level cross-check with real custom tokens',
          'abstract candidates (stubs for source string, token classes, match objects); one recorded finding excluded by a narrow predicate'),
+ 'C17': ('5/C17', 'CrossHair symbolic execution of the LaTeX escaping kernels, every render_* template and tiny whole documents against a balance/escape scanner',
+         'for ALL text up to the bound over full Unicode the kernels escape every special; templates keep groups and environments balanced',
+         'two recorded findings (image source, code language) excluded by call-site predicates; math spans set aside'),
+ 'C18': ('5/C18', 'CrossHair symbolic execution of the contrib overrides against HtmlRenderer + z3 regular-language queries on the extension token patterns + structural override inventory',
+         'overrides agree with the base for ALL inputs within the bounds; a match of the extension tokens implies the trigger text for strings of ANY length',
+         'Pygments never executed symbolically (not reached without a code block)'),
+ 'C19': ('5/C19', 'CrossHair symbolic execution of TocRenderer.render_heading / toc with symbolic levels, depth and filter verdicts',
+         'for ALL integer levels and depths the collected list equals the filtered list; for ALL outlines up to k headings the nesting equals the oracle outline',
+         'headings are stubs in O1/O2; O3 goes through the real parser'),
 }
 NOT_APPLICABLE = {
  'C02': 'the quantifier is a fixed finite corpus of 652 concrete inputs: nothing can be made symbolic, deciding it is enumeration of concrete runs, which this technique family excludes as a deciding step',
